@@ -132,6 +132,9 @@ func PipelineStepOutputs(stmts []*gripql.GraphStatement) map[string][]string {
 			}
 		case *gripql.GraphStatement_Has:
 			out[steps[i]] = []string{"*"}
+		case *gripql.GraphStatement_HasKey, *gripql.GraphStatement_Unwind:
+			//these read the properties of the current element
+			out[steps[i]] = []string{"*"}
 		}
 	}
 	return out
